@@ -469,6 +469,12 @@ func (p *C02) Check(sc *scen.Scenario, run *orch.Run, env *orch.Env) []orch.Viol
 				if len(e.P) == 0 || e.P[len(e.P)-1] != '\n' {
 					add("C02.newline", "entry="+op.Entry+mode, "%s(%q, %s): payload does not end with a newline: %.200q", op.Entry, op.Msg, argShape(op.Args, 0), e.P)
 				}
+				for _, ft := range tokRe.FindAllString(string(e.P), -1) {
+					if ft != op.Tok {
+						add("C02.foreign", "entry="+op.Entry+mode, "%s(%q): the payload carries a piece of the record of another call (%s): %.300q", op.Entry, op.Msg, ft, e.P)
+						break
+					}
+				}
 				if blank {
 					if string(e.P) != "\n" {
 						add("C02.blank", "entry="+op.Entry+mode, "blank %s(%q) must be delivered as exactly one newline byte, got %.120q", op.Entry, op.Msg, e.P)
